@@ -97,7 +97,7 @@ func containsCanary(resp *logical.Response, canary string) bool {
 	return false
 }
 
-var c18Sources = []string{"echo", "secret", "login", "kvread", "list"}
+var c18Sources = []string{"echo", "secret", "login", "kvread", "list", "selfwrap"}
 var c18Attempts = []string{"unwrap-self", "unwrap-3p", "rewrap", "lookup", "revoke", "cubby-read", "misuse"}
 
 type c18Task struct {
@@ -131,6 +131,13 @@ func TestVerif_C18_UnwrapOnce(t *testing.T) {
 		source := rapid.SampledFrom(c18Sources).Draw(rt, "source")
 		canary := "CNRY" + rapid.StringMatching("[A-Za-z0-9]{20}").Draw(rt, "canary")
 		mode := rapid.IntRange(0, 29).Draw(rt, "mode") // 0: sequential with TTL lapse, 1-5 sequential, else concurrent
+		// the TTL-lapse mode waits 2.5 s: it must not be the value shrinking steers every failing case to
+		switch mode {
+		case 11, 17, 23:
+			mode = 0
+		case 0:
+			mode = 6
+		}
 		k := rapid.IntRange(2, 4).Draw(rt, "attempts")
 		tasks := make([]*c18Task, k)
 		for i := range tasks {
@@ -147,11 +154,19 @@ func TestVerif_C18_UnwrapOnce(t *testing.T) {
 		}
 		// ---- create the wrapped response
 		var creq *logical.Request
+		selfOnly := false
 		switch source {
 		case "echo":
 			creq = &logical.Request{Operation: logical.UpdateOperation, Path: "rb/echo/w", ClientToken: requester, Data: map[string]any{"marker": canary}}
 		case "secret":
 			creq = &logical.Request{Operation: logical.UpdateOperation, Path: "rb/creds/w", ClientToken: requester, Data: map[string]any{"marker": canary}}
+		case "selfwrap":
+			// the engine asks for the wrapping itself and may fill in a creation path of its own choosing; the
+			// path that created the token is the request's all the same
+			creq = &logical.Request{Operation: logical.UpdateOperation, Path: "rb/echo/sw", ClientToken: requester, Data: map[string]any{"marker": canary,
+				"self_wrap_ttl_seconds":   int(wrapTTL / time.Second),
+				"self_wrap_creation_path": []string{"", "auth/approle/role/deploy/secret-id", "rb/echo/other", "sys/wrapping/rewrap"}[fairIndex(rt, "engineCreationPath", 4)]}}
+			selfOnly = rapid.Bool().Draw(rt, "onlyTheEngineAsks")
 		case "login":
 			e.hub.mu.Lock()
 			e.hub.loginAuth = func(req *logical.Request) *logical.Auth {
@@ -168,7 +183,9 @@ func TestVerif_C18_UnwrapOnce(t *testing.T) {
 			tc.mustOK(tc.req(logical.UpdateOperation, fmt.Sprintf("rb/kv/lst%d/%s", e.n, canary), tc.root, map[string]any{"v": "x"}), "seed")
 			creq = &logical.Request{Operation: logical.ListOperation, Path: fmt.Sprintf("rb/kv/lst%d/", e.n), ClientToken: requester}
 		}
-		creq.WrapInfo = &logical.RequestWrapInfo{TTL: wrapTTL}
+		if !selfOnly {
+			creq.WrapInfo = &logical.RequestWrapInfo{TTL: wrapTTL}
+		}
 		seq0 := tc.rec.Seq()
 		cres := tc.do(creq)
 		if !cres.ok() || cres.resp == nil || cres.resp.WrapInfo == nil || cres.resp.WrapInfo.Token == "" {
